@@ -1,0 +1,17 @@
+//go:build verif
+// +build verif
+
+package ucon
+
+import (
+	"math/big"
+
+	"github.com/youchainhq/go-youchain/common"
+)
+
+// VerifChoose exposes the unexported sortition quantile function `choose` to the external
+// verification harness (property C04). It is a thin wrapper: same arguments, same result,
+// same panics. Compiled only with -tags verif.
+func VerifChoose(hash common.Hash, w *big.Int, p float64) int64 {
+	return choose(hash, w, p)
+}
